@@ -107,7 +107,7 @@ func vfC03Gen(rt *rapid.T) vfC03Case {
 			return op
 		}
 	})
-	c.Ops = rapid.SliceOfN(opGen, 1, 50).Draw(rt, "ops")
+	c.Ops = vfListOf(rt, "ops", opGen, 1, 50)
 	c.Ops = append(c.Ops, vfTOp{Op: "search", Qs: []string{vfGenText(rt, "query_last", 3)}, K: rapid.IntRange(0, 3).Draw(rt, "k_last")})
 	return c
 }
@@ -281,6 +281,7 @@ func vfTextHits(res []TextResult) []vfHit {
 }
 
 func vfC03Run(c vfC03Case, ctx *vfCtx) *vfViolation {
+	ctx.HistoryLen("history", len(c.Ops))
 	ix := NewBM25SearchIndex()
 	m := vfNewTextModel()
 	replaced := false
